@@ -48,6 +48,8 @@ func scenario(maxRetries int, rfIdx int, elapsed bool, cancelling bool) *explore
 		if cancelling {
 			cancelAt = vs.Choose(maxRetries+1, 0, "cancel during attempt")
 		}
+		// the failures are plain errors, or application errors in the causer convention with nothing underneath
+		rootlessErrs := vs.Choose(2, 0, "shape of the handler's errors") == 1
 		var hooks []int
 		r := middleware.Retry{MaxRetries: maxRetries, InitialInterval: initial, MaxInterval: maxInt, Multiplier: mult,
 			RandomizationFactor: rf, MaxElapsedTime: maxElapsed,
@@ -70,6 +72,9 @@ func scenario(maxRetries int, rfIdx int, elapsed bool, cancelling bool) *explore
 			a.end = vs.VirtualNow()
 			atts = append(atts, a)
 			if k < failures {
+				if rootlessErrs {
+					return hx.Outputs(m, 1), &rootlessErr{fmt.Sprintf("err%d", k)}
+				}
 				return hx.Outputs(m, 1), fmt.Errorf("err%d", k)
 			}
 			o := hx.Outputs(m, 1)
@@ -78,7 +83,7 @@ func scenario(maxRetries int, rfIdx int, elapsed bool, cancelling bool) *explore
 		})
 		out, err := h(msg)
 		returnedAt := vs.VirtualNow()
-		cfg := fmt.Sprintf("MaxRetries=%d Initial=%v Mult=%v MaxInterval=%v RF=%v MaxElapsed=%v attemptTakes=%v failures=%d cancelAt=%d", maxRetries, initial, mult, maxInt, rf, maxElapsed, attemptTakes, failures, cancelAt)
+		cfg := fmt.Sprintf("MaxRetries=%d Initial=%v Mult=%v MaxInterval=%v RF=%v MaxElapsed=%v attemptTakes=%v failures=%d cancelAt=%d rootlessErrors=%v", maxRetries, initial, mult, maxInt, rf, maxElapsed, attemptTakes, failures, cancelAt, rootlessErrs)
 		calls := len(atts)
 		limit := 1 + maxRetries
 		if calls > limit {
@@ -255,3 +260,10 @@ func init() {
 		}
 	}
 }
+
+// rootlessErr follows the Cause()/Unwrap() conventions and has no underlying error.
+type rootlessErr struct{ text string }
+
+func (e *rootlessErr) Error() string { return e.text }
+func (e *rootlessErr) Cause() error  { return nil }
+func (e *rootlessErr) Unwrap() error { return nil }
